@@ -1,4 +1,6 @@
 """Concurrency / executor / allocator family: C05, C19, C20."""
+from . import cs_conc
+
 
 ALLOC_RUN = {"harness": "halloc", "driver": "allocdrv", "fields": None, "corpus": "conc-alloc",
              "quick": {"n": 400, "shards": 12}, "thorough": {"n": 4000, "shards": 32}}
@@ -25,10 +27,12 @@ PROPS = {
             "technique": "Lean 4 proof (inductive invariant of a transition system) + schedule replay / differential correspondence"},
         "lean": ["NbioVerif.Properties.C05"], "drivers": ["jobqdrv"], "harness": ["hjobq"],
         "runs": [JOBQ_RUN],
+        "cs": [cs_conc.cs_conn_submit, cs_conc.cs_conn_drainer],
         "oracles": ["c05-"],
         "rule": "case = (executor kind, #conns, schedule of submit / spawn / finish(panic) / close / burst ops); distinct by hash of "
                 "(config, per-op kind, conn, must, nested, closed, panic); non-trivial iff a job finished or a burst ran",
-        "assumptions": ["a model step is atomic in the code: Execute/MustExecute/execute touch closed/jobList only under c.mux",
+        "assumptions": ["a model step is atomic in the code: Execute/MustExecute/execute touch closed/jobList only under c.mux "
+                        "(checked structurally on every run by the critical-section predicates, tools/csconc)",
                         "the executor eventually runs what it is given (scheduler fairness)"],
     },
     "C19": {
@@ -45,6 +49,7 @@ PROPS = {
             "technique": "Lean 4 proof (inductive invariants of a transition system) + schedule replay / differential correspondence"},
         "lean": ["NbioVerif.Properties.C19"], "drivers": ["tpooldrv", "jobqdrv"], "harness": ["htpool", "hjobq"],
         "runs": [TPOOL_RUN, JOBQ_RUN],
+        "cs": [cs_conc.cs_timer_async, cs_conc.cs_taskpool_counter],
         "oracles": ["c19-"],
         "rule": "case = (bound, queue size, IO wrapper?, schedule of go(park) / release / finish(panic) / stop / barrier probe); distinct by "
                 "hash of (config, per-op kind, park mode, #running, panic); non-trivial iff the queue or a blocked Go call was observed, a "
